@@ -990,6 +990,19 @@ func init() {
 					return fieldOf(r, i).enc()
 				}
 			}
+			// promoted field through embedded structs (panics on a nil embedded pointer, like reflect)
+			obj, index, _ := types.LookupFieldOrMethod(r.t, true, nil, name)
+			if v, ok := obj.(*types.Var); ok && v.IsField() && len(index) > 1 {
+				var idx []value
+				for _, k := range index {
+					idx = append(idx, k)
+				}
+				res, err := fieldByIndex(r, idx)
+				if err != "" {
+					panic(targetPanic{iface{t: nil, v: err}})
+				}
+				return res.enc()
+			}
 			return rv{}.enc()
 		},
 		"(reflect.Value).FieldByIndex": func(fr *frame, args []value) value {
